@@ -103,7 +103,9 @@ def r_name_table_collisions(r, prog):
                 inst.add(t)
     if len(inst) < 9:
         raise AnchorMissing('instantiations of add_named_element (found %s)' % sorted(inst))
-    checked = set()
+    # the two collision domains of the redefinition scan: definitions are compared with every other definition (one table keyed by
+    # scoped name, check_if_redefined); members only with the other members of their container (check_contents_for_redefinitions)
+    checked, defs, members = set(), set(), set()
     for f in prog.fns.values():
         if 'validators::identifiers::' not in f.path:
             continue
@@ -113,19 +115,39 @@ def r_name_table_collisions(r, prog):
                     m = re.search(r'(slicec::grammar::elements::[\w:#]+)', t)
                     if m:
                         checked.add(m.group(1))
+                        (defs if c.name() == 'check_if_redefined' else members).add(m.group(1).rsplit('::', 1)[-1])
     f = prog.fn(ane)
     ins = [c for c in f.calls() if c.name() == 'insert']
     discards = bool(ins) and not [b for b in branches_on_call(f, lambda x: x is ins[0])] and not enum_switches(f, 'core::option::Option')
     for t in sorted(inst):
         if t in checked:
-            r.ok('%s: name collisions are diagnosed by the redefinition scan' % t.rsplit('::', 1)[-1])
+            r.ok('%s: name collisions within its kind are diagnosed by the redefinition scan' % t.rsplit('::', 1)[-1])
         elif not discards:
             r.ok('%s: add_named_element does not discard a previous entry' % t)
         else:
             r.finding('silent-overwrite-in-name-table:%s' % t.rsplit('::', 1)[-1], f.span,
                       '%s is added to the name table (last writer wins: the result of insert is dropped) but is outside the collision domain of '
                       'check_for_redefinitions: an entity of another kind with the same scoped name is overwritten or overwrites it depending on file order' % t)
-    r.floor(9)
+    # across the two domains nothing is diagnosed (a member of `struct S` in module `A` and a definition in module `A::S` have the same scoped
+    # name, and a module does not collide with the definition it is named like), so the name table itself has to settle which one the name
+    # denotes in a way that does not depend on which was added first: for a definition d and a member m exactly one of
+    # keeps(d registered, m new) / keeps(m registered, d new) holds
+    if len(defs) < 5 or len(members) < 4:
+        raise AnchorMissing('collision domains of the redefinition scan (definitions %s, members %s)' % (sorted(defs), sorted(members)))
+    from props import c03 as _c03
+    pol = _c03.registration_policy(prog)
+    if pol is None:
+        r.finding('name-table-policy-unrecognised', f.span, 'add_named_element does not have a recognised registration policy: which of two elements with the same scoped name is looked up cannot be shown independent of the order of the files')
+    else:
+        bad = sorted((d, m) for d in defs for m in members if pol['keeps'](d, m) == pol['keeps'](m, d))
+        if bad:
+            r.finding('member-definition-collision-order-dependent', f.span,
+                      'a definition and a member of another definition can have the same scoped name (member x of A::S / definition x of module A::S) and the redefinition scan does not compare them, '
+                      'but add_named_element lets whichever is added last take the name (%s): a type reference to that name is accepted or rejected depending on the order of the files; pairs: %s'
+                      % (pol['form'], ', '.join('%s/%s' % x for x in bad[:6]) + (' ...' if len(bad) > 6 else '')))
+        else:
+            r.ok('between a definition and a member with the same scoped name the name table keeps the same one in either order (%s)' % pol['form'])
+    r.floor(10)
 
 
 def r_no_first_seen_gating(r, prog):
